@@ -344,7 +344,7 @@ DevRecvAfterDisc(o) ==
 \* them.  This keeps the search small without losing any explanation.
 LinStep ==
   /\ l <= N
-  /\ Rec[l].k \notin {"call", "pend", "wake", "new"}
+  /\ Rec[l].k \notin {"call", "pend", "wake", "wake_stale", "new"}
   /\ \/ /\ \E o \in DOMAIN pend : SendOne(o) /\ UNCHANGED disc
         /\ UNCHANGED <<devs, aux>>
      \/ /\ \E o \in DOMAIN pend : SendDone(o) \/ SendClosed(o) \/ SendSent(o) \/ SendFull(o) \/ RecvDone(o)
@@ -363,7 +363,12 @@ LinStep ==
         /\ aux' = [aux EXCEPT !.hoard = IF Dev("F12") THEN @ + 1 ELSE 0]
   /\ UNCHANGED l
 
+\* the waker of an earlier poll (replaced by a re-poll with another waker) was invoked: it
+\* wakes nobody, so it does not count as waking the operation
+WakeStale == Is("wake_stale") /\ UNCHANGED <<chanVars, devs, aux>> /\ Next1
+
 Next ==
+  \/ WakeStale
   \/ New \/ PollPending \/ Clone \/ CloneZombie \/ Quiesce \/ Hung \/ End \/ StrayDrop
   \/ Wake \/ Cancel
   \/ (Call \/ Ret \/ Close \/ HDrop \/ Conv \/ Obs) /\ UNCHANGED <<devs, aux>>
